@@ -899,6 +899,15 @@ JP runC18(uint64_t runSeed, int64_t runIdx, const TierCfg &cfg) {
     }
     line->set("pair_bits", pb);
     line->set("cov", bitmapHex(guardCoveredIds(), guardCount()));
+    {
+        // control-flow edges at which a task was actually preempted in this run
+        std::vector<uint32_t> at;
+        for (auto p : out.pairs) {
+            uint64_t g = p >> 32;
+            if (g > 0 && g <= (uint64_t)guardCount()) at.push_back((uint32_t)g);
+        }
+        line->set("preempt_cov", bitmapHex(at, guardCount()));
+    }
     JP sc = JVal::arr();
     for (auto sg : out.signatures) sc->push(JVal::str(hex64(sg)));
     line->set("scenarios", sc);
